@@ -1,6 +1,7 @@
 package main
 
 import (
+	"context"
 	"encoding/hex"
 	"errors"
 	"fmt"
@@ -276,6 +277,91 @@ func runC05(c *runCtx) {
 			res.stat("parse-error-at-inserted-token")
 		} else {
 			res.stat("parse-error-at-earlier-token")
+		}
+	}
+	// (1b) large inputs — larger than any chunk or buffer an implementation might process at a time (70 KiB, 200 KiB,
+	// 1.1 MiB; lines of every length; blank and comment lines) — through Tokenize and TokenizeContext, fresh and pooled:
+	// every token's reported (line, column) is where its text stands, starts never move backwards, the entry points agree,
+	// and an unterminated literal at the very end is located at its quote
+	for _, size := range []int{70 << 10, 200 << 10, 1100 << 10} {
+		var sb strings.Builder
+		for k := 0; sb.Len() < size; k++ {
+			switch k % 7 {
+			case 3:
+				sb.WriteString("\n")
+			case 5:
+				fmt.Fprintf(&sb, "  -- note %d\n", k)
+			default:
+				fmt.Fprintf(&sb, "%sSELECT c%d, d%d FROM t%d WHERE x = %d;\n", strings.Repeat(" ", k%11), k, k%13, k%5, k*7)
+			}
+		}
+		script := sb.String()
+		lineStart := []int{0}
+		for i := 0; i < len(script); i++ {
+			if script[i] == '\n' {
+				lineStart = append(lineStart, i+1)
+			}
+		}
+		type run struct {
+			name string
+			f    func(b []byte) ([]models.TokenWithSpan, error)
+		}
+		runs := []run{
+			{"Tokenize", func(b []byte) ([]models.TokenWithSpan, error) { t, _ := tokenizer.New(); return t.Tokenize(b) }},
+			{"TokenizeContext", func(b []byte) ([]models.TokenWithSpan, error) {
+				t, _ := tokenizer.New()
+				return t.TokenizeContext(context.Background(), b)
+			}},
+			{"pooled TokenizeContext", func(b []byte) ([]models.TokenWithSpan, error) {
+				t := tokenizer.GetTokenizer()
+				defer tokenizer.PutTokenizer(t)
+				return t.TokenizeContext(context.Background(), b)
+			}},
+		}
+		var ref string
+		for _, rn := range runs {
+			toks, err := rn.f([]byte(script))
+			res.count(fmt.Sprintf("large|%d|%s", size, rn.name), true)
+			wit := map[string]any{"entry": rn.name, "bytes": len(script), "lines": len(lineStart)}
+			if err != nil {
+				res.fail("large-input-rejected:"+rn.name, "a large multi-line script is rejected", wit, err.Error())
+				continue
+			}
+			var sig strings.Builder
+			prevL, prevC := 0, 0
+			for ti, tk := range toks {
+				l, cc := tk.Start.Line, tk.Start.Column
+				fmt.Fprintf(&sig, "%d:%d ", l, cc)
+				if tk.Token.Value == "" {
+					continue
+				}
+				ok := l >= 1 && l <= len(lineStart)
+				if ok {
+					off := lineStart[l-1] + cc - 1
+					ok = cc >= 1 && off+len(tk.Token.Value) <= len(script) && strings.EqualFold(script[off:off+len(tk.Token.Value)], tk.Token.Value)
+				}
+				if !ok || l < prevL || (l == prevL && cc < prevC) {
+					res.fail("large-input-token-position:"+rn.name, "in a large multi-line script a token is reported where its text does not stand (or before its predecessor)", wit,
+						map[string]any{"token_index": ti, "value": tk.Token.Value, "reported": fmt.Sprintf("%d:%d", l, cc), "previous": fmt.Sprintf("%d:%d", prevL, prevC)})
+					break
+				}
+				prevL, prevC = l, cc
+			}
+			if ref == "" {
+				ref = sig.String()
+			} else if sig.String() != ref {
+				res.fail("large-input-entry-points-differ", "Tokenize and "+rn.name+" report different positions for the same large script", wit, nil)
+			}
+			// an unterminated literal at the very end
+			bad := script + "   SELECT 'open"
+			_, berr := rn.f([]byte(bad))
+			var se *goerrors.Error
+			if errors.As(berr, &se) {
+				if se.Location.Line != len(lineStart) || se.Location.Column != 11 {
+					res.fail("large-input-error-position:"+rn.name, "the unterminated literal at the end of a large script is not located at its quote", wit,
+						map[string]any{"reported": fmt.Sprintf("%d:%d", se.Location.Line, se.Location.Column), "want": fmt.Sprintf("%d:11", len(lineStart))})
+				}
+			}
 		}
 	}
 	// (3b) recovery mode: every error of a script is located at the offending token of its own statement — the error's own
